@@ -436,7 +436,8 @@ def check_oracle(dirname, oracles):
                                    oracle)
                 shutil.copytree(
                     os.path.join(cli_args.test_directory, 'tmp', str(pid)),
-                    os.path.join(cli_args.test_directory, str(pid)))
+                    os.path.join(cli_args.test_directory, str(pid)),
+                    dirs_exist_ok=True)
                 if stop:
                     print(proc_res.stats['error'])
                     sys.exit(1)
@@ -455,7 +456,8 @@ def check_oracle(dirname, oracles):
                                    oracle)
                 shutil.copytree(
                     os.path.join(cli_args.test_directory, 'tmp', str(pid)),
-                    os.path.join(cli_args.test_directory, str(pid)))
+                    os.path.join(cli_args.test_directory, str(pid)),
+                    dirs_exist_ok=True)
         shutil.rmtree(os.path.join(cli_args.test_directory, 'tmp',
                                    str(pid)))
     # Clear the directory of programs.
